@@ -312,6 +312,28 @@ class GridSearchOracle(oracle_module.Oracle):
         hps.ensure_active_values()
         return hps.values if bumped_value else None
 
+    def get_state(self):
+        state = super().get_state()
+        # The progress of the grid: the trial ids in the order of their
+        # combinations, and the trials whose next combination is yet to be
+        # generated.
+        ordered_ids = []
+        if self._ordered_ids._memory:
+            trial_id = self._ordered_ids._memory[0]
+            while trial_id is not None:
+                ordered_ids.append(trial_id)
+                trial_id = self._ordered_ids.next(trial_id)
+        state["ordered_ids"] = ordered_ids
+        state["populate_next"] = list(self._populate_next)
+        return state
+
+    def set_state(self, state):
+        super().set_state(state)
+        self._ordered_ids = LinkedList()
+        for trial_id in state.get("ordered_ids", []):
+            self._ordered_ids.insert(trial_id)
+        self._populate_next = list(state.get("populate_next", []))
+
     @oracle_module.synchronized
     def end_trial(self, trial):
         super().end_trial(trial)
